@@ -11,24 +11,46 @@ from names import *
 _cache = {}
 
 
+def _reads_field(f, field):
+    for b in f.blocks:
+        for s in b["stmts"]:
+            rv = s["rv"]
+            if rv["k"] in ("discr", "ref", "use"):
+                pl = rv.get("pl") or (rv.get("op", {}).get("cp") or rv.get("op", {}).get("mv"))
+                if pl and place_fields(pl) and place_fields(pl)[-1] == (CONFIG, field):
+                    return True
+        t = b["term"]
+        if t["k"] == "switch":
+            pl = t["op"].get("cp") or t["op"].get("mv")
+            if pl and place_fields(pl) and place_fields(pl)[-1] == (CONFIG, field):
+                return True
+    return False
+
+
 def _mode_fns(fx, field):
-    """Workspace functions that branch on Config.<field> (discriminant switch or == comparison): the semantic
-    identity of `needs_backup` / `try_reflink` whatever they are called."""
-    out = []
-    for p, f in fx.fns.items():
-        if f.from_expansion or f.is_closure:
-            continue
-        hit = False
-        for b in f.blocks:
-            for s in b["stmts"]:
-                rv = s["rv"]
-                if rv["k"] in ("discr", "ref", "use"):
-                    pl = rv.get("pl") or (rv.get("op", {}).get("cp") or rv.get("op", {}).get("mv"))
-                    if pl and place_fields(pl) and place_fields(pl)[-1] == (CONFIG, field):
-                        hit = True
-        if hit:
-            out.append(p)
-    return sorted(out)
+    """Workspace functions that branch on Config.<field> (discriminant switch or == comparison), directly or
+    through small accessor/helper functions (`config.reflink_mode()`): the semantic identity of `needs_backup` /
+    `try_reflink` whatever they are called."""
+    k = ("modefns", id(fx), field)
+    if k in _cache:
+        return _cache[k]
+    direct = set(p for p, f in fx.fns.items() if not f.from_expansion and not f.is_closure and _reads_field(f, field))
+    out = set(direct)
+    if direct:
+        cg = q.callgraph(fx)
+        for p, f in fx.fns.items():
+            if p in out or f.from_expansion or f.is_closure or f.crate != "libxcp":
+                continue
+            if not any(d in cg.reach(p) for d in direct):
+                continue
+            try:
+                v = inline.inlined(fx, f, 2, stop=())
+            except Exception:
+                continue
+            if _reads_field(v, field):
+                out.add(p)
+    _cache[k] = sorted(out)
+    return _cache[k]
 
 
 def _returns_bool(f):
